@@ -378,6 +378,10 @@ def barrel_positions(ctx, prog):
                        'provably a single sub-list)', ok, loc=loc(fn, o.node), detail='self.lists[%s] at position %s' % (j, i),
                        path=p.describe() if not ok else None)
     ctx.need('T9.translate', 5)
+    from rules.common import check_no_truthiness
+    popf = ci.own('pop')
+    if isinstance(popf, FuncInfo) and any(isinstance(x, ast.Name) and x.id == 'index' for x in ast.walk(popf.node)):
+        check_no_truthiness(ctx, popf, 'index', why='pop(0) addresses the first element, not "no index"')
     # T9.scan: the sub-list index handed out by _translate_index is found by the scan over the sub-lists (which is what skips
     # empty ones); a literal or otherwise derived sub-list index addresses a sub-list that may be empty
     tr = ci.own('_translate_index')
